@@ -10,6 +10,9 @@ SPELL = {"eq": "==", "ne": "!=", "ge": ">=", "le": "<=", "lt": "<", "gt": ">", "
          "mod": "%%", "and": "&&", "or": "||", "dot": "."}
 
 
+FULL_PARENS = False      # True: every binary operand that is a binary expression is parenthesised
+
+
 class Unrenderable(Exception):
     pass
 
@@ -181,7 +184,7 @@ def expr(e, ind=0):
         def side(x, right):
             if x["e"] == "bin":
                 lv = LEVEL[x["op"]]
-                if lv > LEVEL[op] or (lv == LEVEL[op] and not right):
+                if not FULL_PARENS and (lv > LEVEL[op] or (lv == LEVEL[op] and not right)):
                     return expr(x, ind)
                 return "(" + expr(x, ind) + ")"
             return operand(x, ind)
